@@ -1015,8 +1015,39 @@ def check_rules(pid, replay=None):
     return 1 if n else 0
 
 
-REGISTRY["C02"] = check_rules
-REGISTRY["C03"] = check_rules
+def check_rules_full(pid, replay=None):
+    """translation at the driver (RuleXlate on octets) + hand-over at the PFCP level: an accepted request's Create IE and its
+    Update IE for a rule the data plane holds must reach the data plane (Mon!VForward), also after failed calls"""
+    if replay:
+        with open(replay) as fh:
+            doc = json.load(fh)
+        if doc.get("kind") == "l1":
+            return replay_l1(pid, replay, vlib.build_test_binary("internal/pfcp"))
+        return check_rules(pid, replay)
+    rc = check_rules(pid, None)
+    thorough = vlib.tier() == "thorough"
+    seed = vlib.seed()
+    binary = vlib.build_test_binary("internal/pfcp")
+    rnd = gen_l1.lifecycle(seed, 1200 if thorough else 100) + gen_l1.usage(seed, 600 if thorough else 60, pfault=0.1)
+    log("executing %d random histories (rule life-cycles with failing data-plane calls) on the real PfcpServer: hand-over of Create / Update IEs" % len(rnd))
+    viols, st = execute_and_judge(binary, rnd, kbase(pid), pid + "-fw")
+    n = report_violations(pid, viols, st["crashes"], "L1 hand-over")
+    if st["crashes"] and not n:
+        raise Infra("L1 executor died: %s" % st["crashes"][0]["tail"][-1500:])
+    p = os.path.join(vlib.VERIF, "evidence", pid + ".json")
+    with open(p) as fh:
+        ev = json.load(fh)
+    ev["coverage"].update({"l1_histories": len(rnd), "l1_events_executed_on_impl": st["events"],
+                           "l1_monitor": "Mon!VForward: Create / Update IEs of accepted requests reach the data plane for the addressed session and rule"})
+    ev["coverage"]["traces_validated_against_impl"] = ev["coverage"].get("traces_validated_against_impl", 0) + st["traces"]
+    ev["violations"] = ev.get("violations", 0) + n
+    with open(p, "w") as fh:
+        json.dump(ev, fh, indent=1)
+    return 1 if (rc or n) else 0
+
+
+REGISTRY["C02"] = check_rules_full
+REGISTRY["C03"] = check_rules_full
 
 
 _check_c20_config = check_c20
